@@ -208,8 +208,12 @@ def run_task(task):
         res.update(status="skip", reason="auto-detected IN misses an undefined predicate (precondition of the property)")
         return res
     try:
-        base = ngorun.run_ngo(text, inp, outp, "none")
-        res["changed"] = "\n".join(base["stms"]) != dst
+        if not any(ngorun.flags_of(task["enabled"]).values()):
+            # all traits off: non-trivial = the normal form differs from the parsed source
+            res["changed"] = [str(s) for s in stms if s.ast_type != ASTType.Program] != [x for x in r["stms"] if not x.startswith("#program")]
+        else:
+            base = ngorun.run_ngo(text, inp, outp, "none")
+            res["changed"] = "\n".join(base["stms"]) != dst
     except Exception:  # noqa
         res["changed"] = True
     voc_src = astutil.program_sigs(stms)
